@@ -87,10 +87,10 @@ struct GetCandidatesResponse {
 ///
 /// # Arguments
 /// * `module` - 登録するmodule
-/// * `tx` - sessionを送信するためのchannel
+/// * `store` - sessionを記録するstore
 pub(crate) fn make_get_candidates_method(
     module: &mut RpcModule<MethodContext>,
-    tx: Sender<(SessionId, Vec<RespondedCandidate>, Context)>,
+    store: Arc<Mutex<SessionStore>>,
 ) -> anyhow::Result<()> {
     module.register_method("GetCandidates", move |params, ctx, _| {
         let params = params.parse::<GetCandidatesRequest>()?;
@@ -118,9 +118,11 @@ pub(crate) fn make_get_candidates_method(
             .collect::<Vec<_>>();
         let session_id = SessionId::new();
 
-        // sessionを送信して記録しておく
-        tx.send((session_id.clone(), candidates.clone(), context.clone()))
-            .unwrap();
+        // レスポンスを返す前にsessionを記録しておく。後から記録すると、直後の確定が取りこぼされる
+        store
+            .lock()
+            .unwrap()
+            .add_session(&session_id, &candidates, &context);
 
         RpcResult::Ok(GetCandidatesResponse {
             session_id: session_id.to_string(),
@@ -141,10 +143,10 @@ pub(crate) fn make_get_candidates_method(
 ///
 /// # Arguments
 /// * `module` - 登録するmodule
-/// * `tx` - sessionを送信するためのchannel
+/// * `store` - sessionを記録するstore
 pub(crate) fn make_get_proper_candidates_method(
     module: &mut RpcModule<MethodContext>,
-    tx: Sender<(SessionId, Vec<RespondedCandidate>, Context)>,
+    store: Arc<Mutex<SessionStore>>,
 ) -> anyhow::Result<()> {
     module.register_method("GetProperCandidates", move |params, ctx, _| {
         let params = params.parse::<GetProperCandidatesRequest>()?;
@@ -171,9 +173,11 @@ pub(crate) fn make_get_proper_candidates_method(
             .collect::<Vec<_>>();
         let session_id = SessionId::new();
 
-        // sessionを送信して記録しておく
-        tx.send((session_id.clone(), candidates.clone(), Context::proper()))
-            .unwrap();
+        // レスポンスを返す前にsessionを記録しておく。後から記録すると、直後の確定が取りこぼされる
+        store
+            .lock()
+            .unwrap()
+            .add_session(&session_id, &candidates, &Context::proper());
 
         RpcResult::Ok(GetCandidatesResponse {
             session_id: session_id.to_string(),
